@@ -33,6 +33,25 @@ func main() {
 		for _, id := range ids {
 			fmt.Println(id)
 		}
+	case "maps":
+		// debugging aid: classify every map range in the given packages
+		c := newCtx("maps", "quick")
+		p := mustLoad(c, loadOpts{}, os.Args[2:]...)
+		var rels []string
+		for r := range p.byRel {
+			rels = append(rels, r)
+		}
+		sort.Strings(rels)
+		fns := p.Funcs(rels...)
+		eff := newEffects(p, fns)
+		for _, fn := range fns {
+			for _, mr := range classifyMapRanges(p, eff, fn) {
+				fmt.Printf("%s  [%s]\n    patterns=%v\n", mr.Key, p.pos(mr.Pos), mr.Pattern)
+				for _, r := range mr.Reasons {
+					fmt.Printf("    SENSITIVE: %s\n", r)
+				}
+			}
+		}
 	case "check":
 		if len(os.Args) < 3 {
 			usage()
